@@ -1,14 +1,20 @@
-//! Minimisation of a violation before it is reported: first the plan (drop delivery faults and
-//! displacement, pull the key towards the reference), then the file (whole lines, then tokens,
-//! then characters), keeping a candidate only while the *same kind* of difference persists.
-//! Every probe is two launches in a worker process, so a candidate file that crashes or diverges
-//! simply does not count as a reproduction.
+//! Minimisation of a violation before it is reported: first the schedule (drop launches that are
+//! not needed, drop delivery faults, displacement, clock/pid changes and repeats, pull the key
+//! towards the reference), then the file (whole lines, then tokens, then characters), keeping a
+//! candidate only while the *same kind* of difference persists. Every probe runs in a worker
+//! process, so a candidate file that crashes or diverges simply does not count as a reproduction.
+//!
+//! A difference seen during the run must reproduce in a fresh process before it is reported. If
+//! the (reference, differing) pair alone does not reproduce it, the whole launch history of the
+//! group is replayed (a difference that needs earlier launches in the same process), and then the
+//! file is taken to the exec tier, whose layout seam makes address-dependent behaviour replayable.
 
 use crate::sim_args::Args;
 use crate::sim_entropy::Plan;
 use crate::sim_gen::{join_tokens, rough_tokens};
-use crate::sim_group::{LaunchObs, Spec, diff_signature};
+use crate::sim_group::{LaunchObs, Spec, Tier, derive_plans, diff_signature, kinds_in};
 use crate::sim_pool::{Reply, WorkerProc};
+use crate::sim_rng::Rng;
 use serde_json::{Value, json};
 use std::time::Duration;
 
@@ -19,7 +25,7 @@ pub struct Prober<'a> {
     allowed_kinds: Vec<String>,
 }
 
-fn obs_from_json(v: &Value) -> LaunchObs {
+pub fn obs_from_json(v: &Value) -> LaunchObs {
     let mut fields = vec![];
     let mut abnormal = None;
     if let Some(m) = v.as_object() {
@@ -35,15 +41,31 @@ fn obs_from_json(v: &Value) -> LaunchObs {
     LaunchObs { abnormal, fields }
 }
 
-/// Result of one probe of a two-plan spec.
+/// Result of one probe of a spec (all its launches, in order, in one worker process).
 pub struct Probe {
     pub status: String,
     pub obs: Vec<LaunchObs>,
+    /// index of the first launch that differed from launch 0
+    pub differing: Option<usize>,
+}
+
+impl Probe {
+    pub fn signature(&self) -> Option<(String, Vec<String>)> {
+        let d = self.differing?;
+        if self.status != "violation" || d >= self.obs.len() {
+            return None;
+        }
+        Some(diff_signature(&self.obs[0], &self.obs[d]))
+    }
 }
 
 impl<'a> Prober<'a> {
     pub fn new(args: &'a Args) -> Prober<'a> {
         Prober { args, worker: None, probes: 0, allowed_kinds: vec![] }
+    }
+
+    pub fn fresh_process(&mut self) {
+        self.worker = None;
     }
 
     pub fn probe(&mut self, spec: &Spec) -> Option<Probe> {
@@ -61,7 +83,8 @@ impl<'a> Prober<'a> {
                     .and_then(Value::as_array)
                     .map(|a| a.iter().map(obs_from_json).collect())
                     .unwrap_or_default();
-                Some(Probe { status, obs })
+                let differing = v.get("differing").and_then(Value::as_u64).map(|d| d as usize);
+                Some(Probe { status, obs, differing })
             }
             Reply::TimedOut | Reply::Died(_) => {
                 self.worker = None;
@@ -70,18 +93,20 @@ impl<'a> Prober<'a> {
         }
     }
 
-    /// Does the two-plan spec still show a difference with this signature, without the reference
-    /// launch acquiring kinds of diagnostics the original did not have (a shrunk file should stay
-    /// the same kind of program, not become token soup)?
+    /// Does the spec still show a difference with this signature, without the reference launch
+    /// acquiring kinds of diagnostics the original did not have (a shrunk file should stay the
+    /// same kind of program, not become token soup)?
     fn still(&mut self, spec: &Spec, class: &str, kinds: &[String]) -> bool {
         let allowed = self.allowed_kinds.clone();
         match self.probe(spec) {
-            Some(p) if p.status == "violation" && p.obs.len() == 2 => {
-                let (c, k) = diff_signature(&p.obs[0], &p.obs[1]);
-                let all = crate::sim_group::kinds_in(&p.obs[0].all_text());
-                c == class && k == kinds && all.keys().all(|x| allowed.iter().any(|a| a == x))
-            }
-            _ => false,
+            Some(p) => match p.signature() {
+                Some((c, k)) => {
+                    let all = kinds_in(&p.obs[0].all_text());
+                    c == class && k == kinds && all.keys().all(|x| allowed.iter().any(|a| a == x))
+                }
+                None => false,
+            },
+            None => false,
         }
     }
 }
@@ -89,10 +114,13 @@ impl<'a> Prober<'a> {
 pub struct Minimised {
     pub spec: Spec,
     pub obs: Vec<LaunchObs>,
+    pub differing: usize,
     pub class: String,
     pub kinds: Vec<String>,
     pub probes: usize,
     pub reproduced: bool,
+    /// how the difference was reproduced: pair | history | exec-tier
+    pub route: String,
 }
 
 fn with_source(spec: &Spec, source: Vec<u8>) -> Spec {
@@ -102,11 +130,7 @@ fn with_source(spec: &Spec, source: Vec<u8>) -> Spec {
 }
 
 /// Greedy chunk removal (ddmin-style, halving chunk sizes).
-fn shrink_list<T: Clone>(
-    items: &[T],
-    budget: &mut usize,
-    mut test: impl FnMut(&[T]) -> bool,
-) -> Vec<T> {
+fn shrink_list<T: Clone>(items: &[T], budget: &mut usize, mut test: impl FnMut(&[T]) -> bool) -> Vec<T> {
     let mut cur: Vec<T> = items.to_vec();
     let mut chunk = cur.len().div_ceil(2).max(1);
     loop {
@@ -138,31 +162,102 @@ fn shrink_list<T: Clone>(
     cur
 }
 
+/// The spec must show the same difference in two independent fresh worker processes: a replay
+/// file is only worth writing if replaying it is repeatable.
+fn twice(prober: &mut Prober, spec: &Spec) -> Option<Probe> {
+    prober.fresh_process();
+    let a = prober.probe(spec)?;
+    let sig_a = a.signature()?;
+    prober.fresh_process();
+    let b = prober.probe(spec)?;
+    let sig_b = b.signature()?;
+    if sig_a == sig_b && a.obs == b.obs { Some(b) } else { None }
+}
+
+/// Find a spec that reproduces the difference in a fresh process.
+fn reproduce(prober: &mut Prober, full: &Spec, differing: usize) -> Option<(Spec, Probe, String)> {
+    // 1. the pair alone
+    let mut pair = full.clone();
+    pair.plans = vec![full.plans[0].clone(), full.plans[differing.min(full.plans.len() - 1)].clone()];
+    if let Some(p) = twice(prober, &pair) {
+        return Some((pair, p, "pair".to_owned()));
+    }
+    // 2. the group's whole launch history, in order, in one fresh process
+    let mut history = full.clone();
+    history.plans.truncate(differing + 1);
+    if history.plans.len() > 2 {
+        if let Some(p) = twice(prober, &history) {
+            return Some((history, p, "history".to_owned()));
+        }
+    }
+    // 3. the exec tier, where the layout is the simulator's to choose
+    if full.tier == Tier::InProc {
+        let mut rng = Rng::derive(0xC0DE, crate::sim_rng::fnv(&full.source), differing as u64);
+        for round in 0..3 {
+            let mut exec = full.clone();
+            exec.tier = Tier::Exec;
+            exec.plans = derive_plans(&mut rng, Tier::Exec, 10);
+            // keep the two keys that differed in-process among the candidates
+            exec.plans[1].key = full.plans[differing].key;
+            if round > 0 {
+                exec.plans[0].key = full.plans[0].key;
+            }
+            prober.fresh_process();
+            if let Some(p) = prober.probe(&exec) {
+                if let Some(d) = p.differing {
+                    if p.signature().is_some() {
+                        let mut pair = exec.clone();
+                        pair.plans = vec![exec.plans[0].clone(), exec.plans[d].clone()];
+                        if let Some(pp) = twice(prober, &pair) {
+                            return Some((pair, pp, "exec-tier".to_owned()));
+                        }
+                        if let Some(pp) = twice(prober, &exec) {
+                            return Some((exec, pp, "exec-tier".to_owned()));
+                        }
+                    }
+                }
+            }
+        }
+    }
+    None
+}
+
 pub fn minimise(args: &Args, full: &Spec, differing: usize) -> Minimised {
     let mut prober = Prober::new(args);
-    let mut spec = full.clone();
-    spec.plans = vec![full.plans[0].clone(), full.plans[differing].clone()];
-
-    // Establish the signature from a fresh probe of the pair.
-    let first = prober.probe(&spec);
-    let (class, kinds, mut obs) = match first {
-        Some(p) if p.status == "violation" && p.obs.len() == 2 => {
-            let (c, k) = diff_signature(&p.obs[0], &p.obs[1]);
-            prober.allowed_kinds =
-                crate::sim_group::kinds_in(&p.obs[0].all_text()).keys().map(|x| (*x).to_owned()).collect();
-            (c, k, p.obs)
-        }
-        other => {
-            return Minimised {
-                spec,
-                obs: other.map(|p| p.obs).unwrap_or_default(),
-                class: "unreproduced".to_owned(),
-                kinds: vec![],
-                probes: prober.probes,
-                reproduced: false,
-            };
-        }
+    let Some((mut spec, first, route)) = reproduce(&mut prober, full, differing) else {
+        let mut pair = full.clone();
+        pair.plans = vec![full.plans[0].clone(), full.plans[differing.min(full.plans.len() - 1)].clone()];
+        return Minimised {
+            spec: pair,
+            obs: vec![],
+            differing: 1,
+            class: "unreproduced".to_owned(),
+            kinds: vec![],
+            probes: prober.probes,
+            reproduced: false,
+            route: "none".to_owned(),
+        };
     };
+    let (class, kinds) = first.signature().unwrap_or_else(|| ("content".to_owned(), vec![]));
+    prober.allowed_kinds = kinds_in(&first.obs[0].all_text()).keys().map(|x| (*x).to_owned()).collect();
+    let mut obs = first.obs;
+    let mut diff_at = first.differing.unwrap_or(1);
+
+    // 0. drop launches that are not needed (history route)
+    if spec.plans.len() > 2 {
+        spec.plans.truncate(diff_at + 1);
+        let mut i = 1;
+        while i + 1 < spec.plans.len() {
+            let mut cand = spec.clone();
+            cand.plans.remove(i);
+            if prober.still(&cand, &class, &kinds) {
+                spec = cand;
+            } else {
+                i += 1;
+            }
+        }
+    }
+    let last = spec.plans.len() - 1;
 
     // 1. simplify the differing plan
     let simplifications: Vec<Box<dyn Fn(&mut Plan)>> = vec![
@@ -176,35 +271,43 @@ pub fn minimise(args: &Args, full: &Spec, differing: usize) -> Minimised {
             p.skew_mmap = 0;
             p.env_pad = 0;
         }),
+        Box::new(|p| {
+            p.clock_base = crate::sim_entropy::REF_CLOCK_BASE;
+            p.clock_step_ns = crate::sim_entropy::REF_CLOCK_STEP_NS;
+        }),
+        Box::new(|p| p.pid = crate::sim_entropy::REF_PID),
+        Box::new(|p| p.repeat = 0),
     ];
     for simplify in &simplifications {
         let mut cand = spec.clone();
-        simplify(&mut cand.plans[1]);
-        if cand.plans[1] != spec.plans[1] && prober.still(&cand, &class, &kinds) {
+        simplify(&mut cand.plans[last]);
+        if cand.plans[last] != spec.plans[last] && prober.still(&cand, &class, &kinds) {
             spec = cand;
         }
     }
-    // 2. pull the key towards the reference key, 8 bytes, then single bytes
-    for (lo, hi) in [(0usize, 8usize), (8, 16)] {
+    // 2. pull the key towards the reference key: all of it, 8 bytes at a time, then single bytes
+    let ref_key = spec.plans[0].key;
+    for (lo, hi) in [(0usize, 16usize), (0, 8), (8, 16)] {
         let mut cand = spec.clone();
-        cand.plans[1].key[lo..hi].copy_from_slice(&spec.plans[0].key[lo..hi]);
-        if cand.plans[1].key != spec.plans[1].key && prober.still(&cand, &class, &kinds) {
+        cand.plans[last].key[lo..hi].copy_from_slice(&ref_key[lo..hi]);
+        if cand.plans[last].key != spec.plans[last].key && prober.still(&cand, &class, &kinds) {
             spec = cand;
         }
     }
     for i in 0..16 {
-        if spec.plans[1].key[i] != spec.plans[0].key[i] {
+        if spec.plans[last].key[i] != ref_key[i] {
             let mut cand = spec.clone();
-            cand.plans[1].key[i] = spec.plans[0].key[i];
+            cand.plans[last].key[i] = ref_key[i];
             if prober.still(&cand, &class, &kinds) {
                 spec = cand;
             }
         }
     }
-    spec.plans[1].kind = format!("{} (minimised)", full.plans[differing].kind);
+    let base_kind = spec.plans[last].kind.replace(" (minimised)", "");
+    spec.plans[last].kind = format!("{base_kind} (minimised)");
 
     // 3. shrink the file
-    let mut budget = if spec.tier == crate::sim_group::Tier::InProc { 900usize } else { 250usize };
+    let mut budget = if spec.tier == Tier::InProc { 900usize } else { 250usize };
     if let Ok(text) = String::from_utf8(spec.source.clone()) {
         // lines
         let lines: Vec<String> = text.split_inclusive('\n').map(str::to_owned).collect();
@@ -235,25 +338,21 @@ pub fn minimise(args: &Args, full: &Spec, differing: usize) -> Minimised {
         }
     }
 
-    // Final confirmation of the minimised pair, in a fresh worker process.
-    prober.worker = None;
+    // Final confirmation of the minimised spec, in a fresh worker process.
     let mut reproduced = false;
-    if let Some(p) = prober.probe(&spec) {
-        if p.status == "violation" && p.obs.len() == 2 {
-            reproduced = true;
-            obs = p.obs;
-        }
+    if let Some(p) = twice(&mut prober, &spec) {
+        reproduced = true;
+        diff_at = p.differing.unwrap_or(last);
+        obs = p.obs;
     }
     if !reproduced {
-        // fall back to the unminimised pair, which did reproduce
-        spec = full.clone();
-        spec.plans = vec![full.plans[0].clone(), full.plans[differing].clone()];
-        if let Some(p) = prober.probe(&spec) {
-            if p.status == "violation" && p.obs.len() == 2 {
-                reproduced = true;
-                obs = p.obs;
-            }
+        // fall back to whatever reproduced before minimisation
+        if let Some((s, p, _)) = reproduce(&mut prober, full, differing) {
+            reproduced = true;
+            diff_at = p.differing.unwrap_or(1);
+            obs = p.obs;
+            spec = s;
         }
     }
-    Minimised { spec, obs, class, kinds, probes: prober.probes, reproduced }
+    Minimised { spec, obs, differing: diff_at, class, kinds, probes: prober.probes, reproduced, route }
 }
